@@ -13,6 +13,9 @@ config reader reported for one configuration; an expectation says what the prope
 * `meets`    a field given a value next to the bound of one of its documented constraints (`demandAll`): a value that
              meets every constraint must be accepted and stored, one that violates one must be rejected; values the
              documentation does not speak about (a port written `+80`, an IPv6 host, …) carry no demand
+* `number`   a number given for a numeric option: stored as that number when the option's type can hold it (and the
+             field's constraints allow it), rejected otherwise (`numberDemand`)
+* `values`   several fields at once, also inside constructed components (the config every instance received)
 * `disc`     the CLI reader: `discard_overflow` of every pool is what the pool says, and `true` when it says nothing
 -/
 import Pandora.Model.C17
@@ -26,6 +29,7 @@ inductive Obs
   | accepted (v : Option DVal)  -- accepted; the decoded root value when it was observed
   | discards (ds : List Bool)   -- CLI reader: accepted, `DiscardOverflow` of the pools
   | crashed                     -- the reader panicked
+  | unstable                    -- decoding the same data a second time gave another outcome
   | unknown                     -- not an outcome of config decoding (constructor error, harness trouble)
   deriving Repr
 
@@ -36,12 +40,40 @@ def castExpect (k : Kind) (raw : Str) : Option DVal :=
   | .bool => (parseBoolLit raw).map DVal.bool
   | .int bits => (parseIntLit raw).bind fun i => if intFits bits i then some (.int i) else none
   | .uint bits => (parseUintLit raw).bind fun n => if uintFits bits n then some (.uint n) else none
-  | .float _ => (parseDecLit raw).map DVal.float
+  | .float bits => (parseDecLit raw).bind fun d => (castFloat bits d).map DVal.float
   | .dur =>
     -- a plain integer is a number of nanoseconds (as for a YAML integer); otherwise Go duration syntax
     match (parseIntLit raw).bind fun i => if intFits 64 i then some (DVal.int i) else none with
     | some w => some w
     | none => (parseDuration raw).map DVal.int
+
+/-! ## numbers: an option holds the number it is given, or the configuration is refused
+
+A number written for a numeric option is either stored AS THAT NUMBER or it is an error: a number the option's type
+cannot hold (a fractional one for an integer option, 300 for an int8, 2⁶³ or 1e19 for an int64 / a duration, 1e39 for
+a float32) must not be turned silently into another number. -/
+
+/-- `none`: no number; `some none`: a number that is no integer; `some (some i)`: the integer -/
+def wholeOf : Val → Option (Option Int)
+  | .int i => some (some i)
+  | .float d => some (if d.isWhole then some d.trunc else none)
+  | _ => none
+
+/-- what a field of kind `k` given the number `v` must end up with: `some (some w)` — accepted, holding `w`;
+`some none` — refused; `none` — no statement (`v` is no number, `k` no numeric kind).  float32: a value within the
+range is stored rounded to the width (the generator gives values a float32 holds exactly). -/
+def numberDemand (k : Kind) (v : Val) : Option (Option DVal) :=
+  match k with
+  | .int bits => (wholeOf v).map fun w => w.bind fun i => if intFits bits i then some (.int i) else none
+  | .dur => (wholeOf v).map fun w => w.bind fun i => if intFits 64 i then some (.int i) else none
+  | .uint bits =>
+    (wholeOf v).map fun w => w.bind fun i => if decide (0 ≤ i) && uintFits bits i.toNat then some (.uint i.toNat) else none
+  | .float bits =>
+    match v with
+    | .int i => some (some (.float (Dec.ofInt i)))
+    | .float d => some (if bits != 32 || d.absLeNat maxFloat32 then some (.float d) else none)
+    | _ => none
+  | _ => none
 
 /-! ## documented constraints, stated independently of the validator's code
 
@@ -126,9 +158,12 @@ def demandAll : List VTag → DVal → Option Bool
 
 def stepPtr : DVal → DVal
   | .ptr v => v
+  | .plugin c => c
   | v => v
 
-/-- field lookup by Go field names; pointers are stepped through -/
+/-- field lookup by Go field names; pointers are stepped through, a constructed component stands for the config it
+received; `#i` selects the i-th element of a list, resp. the config the i-th observed call of a factory handed out (the
+model's factory value has one config: every call hands out the same) -/
 def lookup : List Str → DVal → Option DVal
   | [], v => some v
   | n :: p, v =>
@@ -137,6 +172,22 @@ def lookup : List Str → DVal → Option DVal
       match fs.find? (fun f => f.1 == n) with
       | some (_, w) => lookup p w
       | none => none
+    | .slice xs =>
+      match n with
+      | '#' :: ds => match xs[digitsVal ds 0]? with
+        | some w => lookup p w
+        | none => none
+      | _ => none
+    | .factory (.slice xs) =>
+      match n with
+      | '#' :: ds => match xs[digitsVal ds 0]? with
+        | some w => lookup p w
+        | none => none
+      | _ => none
+    | .factory c =>
+      match n with
+      | '#' :: _ => lookup p c
+      | _ => none
     | _ => none
 
 inductive Expect
@@ -145,6 +196,8 @@ inductive Expect
   | value (loc : Option (List Str)) (want : DVal)
   | cast (loc : Option (List Str)) (k : Kind) (raw : Str)
   | meets (loc : Option (List Str)) (tags : List VTag) (v : DVal)
+  | number (loc : Option (List Str)) (k : Kind) (v : Val) (tags : List VTag)
+  | values (wants : List (List Str × DVal))
   | disc (want : List Bool)
   | nothing
 
@@ -182,11 +235,23 @@ def checkValue (loc : Option (List Str)) (want : DVal) : Obs → Verdict
       | none => .fail "no-such-field"
   | .discards _ => .ok
   | .crashed => .fail "panic"
+  | .unstable => .fail "redecode"
   | .unknown => .inconclusive
+
+/-- every listed field holds the listed value -/
+def checkValues : List (List Str × DVal) → Obs → Verdict
+  | [], o => match o with
+    | .rejected => .fail "rejected"
+    | _ => .ok
+  | (loc, want) :: r, o =>
+    match checkValue (some loc) want o with
+    | .ok => checkValues r o
+    | v => v
 
 /-- does the observation meet the expectation? -/
 def holds : Expect → Obs → Verdict
   | _, .crashed => .fail "panic"
+  | _, .unstable => .fail "redecode"
   | _, .unknown => .inconclusive
   | .reject, .rejected => .ok
   | .reject, _ => .fail "accepted"
@@ -206,6 +271,21 @@ def holds : Expect → Obs → Verdict
       | .rejected => .ok
       | _ => .fail "accepted"
     | none => .ok
+  | .number loc k v tags, o =>
+    match numberDemand k v with
+    | some (some want) =>
+      -- the type holds the number: the field's documented constraints decide
+      match demandAll tags want with
+      | some true => checkValue loc want o
+      | some false => match o with
+        | .rejected => .ok
+        | _ => .fail "accepted"
+      | none => .ok
+    | some none => match o with
+      | .rejected => .ok
+      | _ => .fail "accepted"
+    | none => .ok
+  | .values wants, o => checkValues wants o
   | .disc want, .discards ds => if ds == want then .ok else .fail "discard"
   | .disc _, .rejected => .fail "rejected"
   | .disc _, _ => .inconclusive
